@@ -138,7 +138,7 @@ func (m *Machine) block(ready func() bool, what string) {
 
 // preemptPoint optionally switches to another runnable goroutine (context-bounded).
 func (m *Machine) preemptPoint() {
-	if m.preempts >= m.opts.Preempt {
+	if m.schedOff || m.preempts >= m.opts.Preempt {
 		return
 	}
 	if len(m.gs) < 2 {
@@ -492,6 +492,9 @@ func (m *Machine) pickDelay(rs []*G, cur *G) int {
 	}
 	order := m.rotate(rs, cur)
 	n := m.opts.Preempt - m.preempts
+	if m.schedOff {
+		n = 0
+	}
 	if n > len(order)-1 {
 		n = len(order) - 1
 	}
